@@ -121,6 +121,7 @@ def run(ctx: Context) -> None:
     ctx.rule("C06b", "nb_get_fock_space_basis fills contiguous slices whose lengths sum to the allocated number of rows, for all d >= 1 and cutoff >= 0")
     ctx.rule("C06c", "full index = sector offset + index within the sector (bosonic: one more iteration of the subspace loop whose term is the dimension formula; fermionic: dimension below n plus subspace index)")
     mi, mf, me = idx.module(IND), idx.module(FOCK), idx.module(FERM)
+    clause_e(ctx, idx)
 
     def need(m, name) -> FuncInfo:
         f = m.functions.get(name)
@@ -364,3 +365,77 @@ class _Rename(ast.NodeTransformer):
         if n.id == self.a:
             return ast.Name(id=self.b, ctx=n.ctx)
         return n
+
+
+def clause_e(ctx: Context, idx) -> None:
+    """The index functions are sums of binomial coefficients computed by `comb` / `arr_comb` in 64-bit integers (C06a replaces arr_comb by
+    comb; this clause is what justifies it).  Loop invariant, decided with sympy: the accumulator starts at 1 = C(n, 0) and one iteration maps
+    C(n, i) to C(n, i + 1) - so the floor division inside the loop is exact and no intermediate exceeds n * C(n, k).  A version that multiplies
+    the whole falling factorial and divides once at the end returns the same numbers only while k! * C(n, k) fits into 64 bits (it fails from
+    17 modes on), although every result is within the property's range."""
+    ctx.rule("C06e", "comb / arr_comb keep the invariant accumulator == C(n, i) through their loop (exact division inside the loop; intermediates are "
+                     "binomial coefficients) and return the accumulator itself")
+    mod = idx.module("piquasso._math.combinatorics")
+    n_sym, i_sym = sp.Symbol("n", integer=True, nonnegative=True), sp.Symbol("i", integer=True, nonnegative=True)
+    n_fn = 0
+    for name in ("comb", "arr_comb"):
+        fn = mod.functions.get(name)
+        if fn is None:
+            raise AnalysisError(f"anchor vanished: piquasso._math.combinatorics:{name}")
+        n_fn += 1
+        loops = [x for x in fn.node.body if isinstance(x, ast.For)]
+        rets = [x for x in fn.node.body if isinstance(x, ast.Return)]
+        key = f"{fn.qualname}|accumulator is C(n, i)"
+        if len(loops) != 1 or not rets:
+            ctx.error(f"C06e: {name} no longer has one top-level loop followed by a return (undecided)")
+            continue
+        loop = loops[0]
+        acc_names = {t.id for st in loop.body for t in ([st.target] if isinstance(st, ast.AugAssign) else (st.targets if isinstance(st, ast.Assign) else []))
+                     if isinstance(t, ast.Name)}
+        ret = rets[-1].value
+        npar = fn.params()[0]
+        ivar = loop.target.id if isinstance(loop.target, ast.Name) else None
+        if not (isinstance(ret, ast.Name) and ret.id in acc_names) or ivar is None:
+            ok = False
+            why = f"returns `{norm(ret)}`, not the loop's accumulator"
+        else:
+            acc = ret.id
+            env: Dict[str, sp.Expr] = {npar: n_sym, ivar: i_sym, acc: sp.binomial(n_sym, i_sym)}
+
+            def ev(e: ast.AST) -> sp.Expr:
+                if isinstance(e, ast.Name):
+                    if e.id not in env:
+                        raise AnalysisError(f"C06e: free name `{e.id}` in the loop of {name} (undecided)")
+                    return env[e.id]
+                if isinstance(e, ast.Constant) and isinstance(e.value, int):
+                    return sp.Integer(e.value)
+                if isinstance(e, ast.BinOp):
+                    a, b = ev(e.left), ev(e.right)
+                    if isinstance(e.op, ast.Add):
+                        return a + b
+                    if isinstance(e.op, ast.Sub):
+                        return a - b
+                    if isinstance(e.op, ast.Mult):
+                        return a * b
+                    if isinstance(e.op, ast.FloorDiv):
+                        return a / b   # exactness is part of what is proved: the quotient must be the (integer) binomial
+                raise AnalysisError(f"C06e: `{norm(e)[:40]}` in the loop of {name} is outside the integer-arithmetic fragment (undecided)")
+
+            for st in loop.body:
+                if isinstance(st, ast.AugAssign) and isinstance(st.target, ast.Name):
+                    env[st.target.id] = ev(ast.BinOp(left=ast.Name(st.target.id, ast.Load()), op=st.op, right=st.value))
+                elif isinstance(st, ast.Assign) and len(st.targets) == 1 and isinstance(st.targets[0], ast.Name):
+                    env[st.targets[0].id] = ev(st.value)
+                else:
+                    raise AnalysisError(f"C06e: statement `{norm(st)[:50]}` in the loop of {name} (undecided)")
+            step = sp.simplify(sp.gammasimp(sp.combsimp(env[acc] / sp.binomial(n_sym, i_sym + 1))))
+            inits = [a for a in fn.node.body if isinstance(a, ast.Assign) and isinstance(a.targets[0], ast.Name) and a.targets[0].id == acc]
+            init_ok = bool(inits) and (norm(inits[0].value) == "1" or "ones" in norm(inits[0].value))
+            ok = step == 1 and init_ok
+            why = f"one iteration maps C(n, i) to {sp.simplify(env[acc])} (ratio to C(n, i + 1): {step}); initial value {'1' if init_ok else 'not 1'}"
+        ctx.obligation("C06e", key, ok, f"{ctx.relpath(fn.file)}:{fn.line}", detail=why)
+        if not ok:
+            ctx.violation("C06e", key, fn.file, fn.line,
+                          f"{name}: {why}; the intermediates are not binomial coefficients, so the 64-bit accumulator overflows for arguments whose "
+                          f"result is well within range (from about 17 modes on) and the vectorised index disagrees with the enumeration", why[:120])
+    ctx.require_floor("C06e binomial accumulators", n_fn, 2)
